@@ -331,7 +331,9 @@ impl StringGenerator {
             let len = if self.options.compress && !self.options.preserve_line_length {
                 let mut last = area.get_width() - 1;
                 let last_attr = layer.get_char((last, y)).attribute;
-                if last_attr.background_color == 0 && !last_attr.is_blinking() {
+                // cells that are not written show the loader's default background: black
+                let shows_black = buf.palette.get_rgb(last_attr.background_color) == DOS_DEFAULT_PALETTE[0].get_rgb();
+                if shows_black && !last_attr.is_blinking() {
                     while last > area.left() {
                         let c = layer.get_char((last, y));
 
@@ -542,7 +544,7 @@ impl StringGenerator {
                     rle -= x;
                     // a cursor-forward that reaches the right margin stops there instead of wrapping to the next row
                     let reaches_margin = x + rle + 1 >= layer.get_width() as usize;
-                    if self.options.use_cursor_forward && !reaches_margin && line[x].ch == ' ' && line[x].cur_state.bg_idx == 0 && !line[x].cur_state.is_blink {
+                    if self.options.use_cursor_forward && !reaches_margin && line[x].ch == ' ' && line[x].cur_state.bg.get_rgb() == DOS_DEFAULT_PALETTE[0].get_rgb() && !line[x].cur_state.is_blink {
                         let fmt = &format!("\x1B[{}C", rle + 1);
                         let output = fmt.as_bytes();
                         if output.len() <= rle {
